@@ -105,7 +105,15 @@ fn gen_string(rng: &mut Rng) -> String {
         7 => format!("{}.256.1.1:{}", rng.below(256), port(rng)),
         8 => format!("{}:{}", rng.pick(&v6s), port(rng)), // missing brackets
         9 => format!("{}:{}", rng.pick(&hosts), port(rng)),
-        10 => format!("ws://{}:{}/path", rng.pick(&hosts), port(rng)),
+        10 => match rng.below(6) {
+            // urls that are not in their canonical serialisation: the text is kept as given
+            0 => format!("ws://{}:{}", rng.pick(&hosts), port(rng)),
+            1 => format!("WS://Host.Example:80/{}", rng.below(10)),
+            2 => format!("ws://{}/a/../b", rng.pick(&hosts)),
+            3 => format!("Host:{}", port(rng)),
+            4 => format!("wss://{}:443/x", rng.pick(&hosts)),
+            _ => format!("ws://{}:{}/path", rng.pick(&hosts), port(rng)),
+        },
         11 => format!("wss://{}/{}", v4(rng), rng.below(100)),
         12 => String::new(),
         13 => format!(" {}:{}", v4(rng), port(rng)),
